@@ -134,3 +134,42 @@ def specsync(n=40, seed=0, timeout=20):
             mirror.to_smt(t1), mirror.store_to_smt(s), mirror.to_smt(mirror.resolve(t1, s)))
         obls.append(('spec.sync.%d' % len(obls), text + '\n' + q))
     return smt.run_many(obls, timeout=timeout)
+
+
+# ---------------------------------------------------------------------------------------------
+# Control-algebra lemma layer: every axiom of spec/control.smt2 tagged `; LEAN <name>` must be a
+# theorem of lean/CtlM1.lean and lean/CtlM2.lean, and both files must check (no sorry/axiom).
+def lean_lemmas(timeout=120):
+    import subprocess
+    import time
+    root = os.path.dirname(os.path.dirname(os.path.abspath(__file__)))
+    names = re.findall(r'; LEAN (\w+)', open(os.path.join(root, 'spec', 'control.smt2')).read())
+    out = []
+    files = {}
+    for model, fn, ns in (('M1', 'CtlM1.lean', ''), ('M2', 'CtlM2.lean', 'M2.')):
+        path = os.path.join(root, 'lean', fn)
+        src = open(path).read()
+        t0 = time.time()
+        try:
+            p = subprocess.run(['lean', path], capture_output=True, text=True, timeout=timeout)
+            log, rc = p.stdout + p.stderr, p.returncode
+        except (subprocess.TimeoutExpired, FileNotFoundError) as e:
+            log, rc = str(e), 99
+        dt = time.time() - t0
+        bad_words = re.search(r'\bsorry\b|^axiom |native_decide', src, re.M)
+        files[model] = (rc, log, dt)
+        for n in names:
+            ok = rc == 0 and not bad_words and re.search(r'^theorem %s\b' % n, src, re.M) is not None
+            m = re.search(r"'%s%s' (depends on axioms: \[([^\]]*)\]|does not depend on any axioms)" % (re.escape(ns), n), log)
+            if m is None:
+                ok = False
+                detail = 'no #print axioms line for %s%s' % (ns, n)
+            else:
+                ax = m.group(2) or ''
+                detail = 'axioms: [%s]' % ax
+                if 'sorryAx' in ax:
+                    ok = False
+            out.append(dict(name='lemma.%s.%s' % (model, n), verdict='unsat' if ok else 'unknown', solver='lean',
+                            seconds=round(dt / max(1, len(names)), 3), tried=[('lean', detail, round(dt, 2))],
+                            output=detail if ok else (detail + '\n' + log[-1500:])))
+    return out
